@@ -967,9 +967,9 @@ def fixtures():
             ('leaf', 'A2', None)]),
         ('leaf', 'I1', None), ('leaf', 'J1', None), ('leaf', 'K1', None)]
     big_events = [
-        _ev('big', _tr(['G1', 'L3'], 'L4', guards=['bg6', 'bg7', 'bg8', 'bg9'], unless=['bu6', 'bu7', 'bu8', 'bu9'], before=['bb5', 'bb6', 'bb7'], after=['ba5', 'ba6'], around=['bw4', 'bw5']),
+        _ev('big', _tr(['G1', 'L3'], 'L4', guards=['bg6', 'bg7', 'bg8', 'bg9'], unless=['bu6', 'bu7', 'bu8', 'bu9'], before=['bb5', 'bb6', 'bb7'], after=['ba5', 'ba6'], around=['bw5', 'bw6', 'bw7']),
             payload='P', guards=['bg1', 'bg2', 'bg3', 'bg4', 'bg5'], unless=['bu1', 'bu2', 'bu3', 'bu4', 'bu5'], before=['bb1', 'bb2', 'bb3', 'bb4'],
-            after=['ba1', 'ba2', 'ba3', 'ba4'], around=['bw1', 'bw2', 'bw3']),
+            after=['ba1', 'ba2', 'ba3', 'ba4'], around=['bw1', 'bw2', 'bw3', 'bw4']),
         _ev('e1', _tr(['G1'], 'H1')), _ev('e2', _tr(['H1'], 'I1')), _ev('e3', _tr(['I1'], 'J1')), _ev('e4', _tr(['J1'], 'K1')),
         _ev('e5', _tr(['K1'], 'L1')), _ev('e6', _tr(['L1'], 'G1')), _ev('e7', _tr(['L5'], 'A2'), _tr(['A2', 'B1'], 'L5')),
         _ev('e8', _tr(['L2'], 'L2', guards=['sg1'])),
